@@ -11,7 +11,8 @@ socket that accepts any part of what it is offered,
 * `never_wedged`: the connection is registered for write events exactly when a frame is in flight, and nothing is queued behind
   an empty flight buffer — it never holds unsent bytes without waiting for the socket;
 * `progress`: a write event on which the socket accepts at least one byte strictly decreases the number of unsent bytes;
-* `all_delivered`: when no bytes are left unsent, the wire carries exactly the frames queued, in order.
+* `all_delivered`: when no bytes are left unsent, the wire carries exactly the frames queued, in order;
+* `drains`: `k` write events that each accept at least one byte leave at most `unsent − k` bytes unsent.
 
 Frames are never empty (a frame starts with the four magic bytes).
 -/
@@ -215,6 +216,41 @@ theorem all_delivered (evs : List SendEv) (hf : ∀ f ∈ queuedBy evs, f ≠ []
     exact List.length_eq_zero_iff.mp (by omega)
   rw [hb, hi.idle hb] at hc
   simpa using hc
+
+/-- helper: with nothing in flight nothing is unsent -/
+theorem unsent_zero_of_not_writing (s : SendSt) (h : Inv s) (hw : s.writing = false) : unsent s = 0 := by
+  have hb : s.buffer = [] := by
+    by_cases hb : s.buffer = []
+    · exact hb
+    · have := h.writingIff.mpr hb
+      rw [hw] at this
+      cases this
+  have hq := h.idle hb
+  simp [unsent, hb, hq]
+
+/-- helper: `drains` over the fold -/
+theorem drains_fold (accs : List (Nat → Nat)) (ha : ∀ acc ∈ accs, 1 ≤ acc 0) :
+    ∀ (s : SendSt), Inv s → unsent (List.foldl SendSt.step s (accs.map SendEv.writable)) ≤ unsent s - accs.length := by
+  induction accs with
+  | nil => intro s _; simp
+  | cons acc rest ih =>
+    intro s h
+    have hstep : Inv (s.step (.writable acc)) := inv_step s (.writable acc) h (by intro f hf; cases hf)
+    have hrest := ih (fun a ha' => ha a (List.mem_cons_of_mem _ ha')) (s.step (.writable acc)) hstep
+    simp only [List.map_cons, List.foldl_cons, List.length_cons]
+    cases hw : s.writing
+    · have h0 := unsent_zero_of_not_writing s h hw
+      have hs : s.step (.writable acc) = s := by simp [SendSt.step, hw]
+      rw [hs] at hrest ⊢
+      omega
+    · have hp := progress s acc h hw (ha acc (List.mem_cons_self ..))
+      omega
+
+/-- **everything queued is delivered**: after `k` write events on each of which the socket accepts at least one byte, at most
+`unsent s - k` bytes are unsent — after `unsent s` such events, none -/
+theorem drains (accs : List (Nat → Nat)) (ha : ∀ acc ∈ accs, 1 ≤ acc 0) (s : SendSt) (h : Inv s) :
+    unsent (s.run (accs.map SendEv.writable)) ≤ unsent s - accs.length :=
+  drains_fold accs ha s h
 
 /-! ### non-vacuity: two frames queued while the socket accepts two bytes per call, then drained -/
 
